@@ -35,7 +35,7 @@ Definition names_of (cs : list cchild) (idx : list nat) : list str :=
 
 (* ---- outcome of the real handler: code 0 = entries, otherwise the exception ---- *)
 Definition exn_code (e : exn) : N :=
-  match e with FileNotFound => 1 | IOErr => 2 | IndexError => 3 | ValueError => 4 | TypeError => 5 end.
+  match e with FileNotFound => 1 | IOErr => 2 | IndexError => 3 | ValueError => 4 | TypeError => 5 | Blocked => 6 end.
 Definition outcome := (N * list entry)%type.
 Definition outcome_of {A} (f : A -> entry) (r : result (list A)) : outcome :=
   match r with Ok l => (0, map f l) | Raise e => (exn_code e, []) end.
